@@ -1,5 +1,7 @@
 import Py4hwV.Proofs.C13Mul
 import Py4hwV.Proofs.C13AddUlp
+import Py4hwV.Proofs.C13Fx
+import Py4hwV.Proofs.C13Special
 import Py4hwV.Helper.Spec
 /-
   C13 — Single-precision floating-point blocks meet IEEE-754 within stated error bounds.
@@ -239,5 +241,219 @@ theorem fpadd_datapath_far (mB d : Nat) (hm : mB < 2^24) (hd : 24 ≤ d) : mB / 
 
 example : fpadd 0x3FC00000 0x40100000 = 0x40700000 ∧ fpadd 0x40100000 0x3FC00000 = 0x40700000
     ∧ addOk 0x3FC00000 0x40100000 0x40700000 = true := by decide +kernel       -- 1.5 + 2.25 = 3.75
+
+/-! ## (5) FixedPointtoFP_SP — every format the constructor accepts (not named by the property text; same conversion clause) -/
+
+/-- **FixedPointtoFP_SP**, every accepted format (1 ≤ aw ≤ 32, ANY integer f1 = f[1]) and every `aw`-bit encoding `a`
+    (x = toSigned aw a, exact value x·2^(f1+1−aw)): zero gives +0; whenever the exact value is in the normal range
+    (`fxBiased` = its biased exponent in 1..254) the result is a normal encoding whose value is the exact value truncated
+    toward zero to 24 significant bits (exact when it fits): `sval r · 2^aw = ± truncSig |x| · 2^(f1+150)` (both sides of
+    value(r) = ± truncSig|x| · 2^(f1+1−aw) scaled by 2^(149+aw)); `p_lost = 1` iff truncation discarded a non-zero bit. -/
+theorem fixedtofp_spec (aw : Nat) (f1 : Int) (a : Nat) (h1 : 1 ≤ aw) (h32 : aw ≤ 32) (ha : a < 2^aw) :
+    let x := Bits.toSigned aw a
+    (x = 0 → (fixedtofp aw f1 a).1 = 0) ∧
+    (x ≠ 0 → 1 ≤ fxBiased aw f1 x.natAbs → fxBiased aw f1 x.natAbs ≤ 254 →
+       normal (fixedtofp aw f1 a).1 = true ∧ 0 ≤ f1 + 150 ∧
+       sval (fixedtofp aw f1 a).1 * 2^aw
+         = (if x < 0 then -1 else 1) * ((truncSig x.natAbs : Nat) : Int) * 2^(f1 + 150).toNat) ∧
+    (fixedtofp aw f1 a).2 = b2n (lostSig x.natAbs) := fixedtofp_spec' aw f1 a h1 h32 ha
+
+/-- every format with `aw − 127 ≤ f1 ≤ 127` — in particular every format tuple (sign, f1, aw−1−f1) with 0 ≤ f1 < aw — has ALL
+    its values in the domain of `fixedtofp_spec`: the conversion is right for every encoding of such a format -/
+theorem fixedtofp_format (aw : Nat) (f1 : Int) (a : Nat) (h1 : 1 ≤ aw) (h32 : aw ≤ 32) (ha : a < 2^aw)
+    (hlo : (aw : Int) - 127 ≤ f1) (hhi : f1 ≤ 127) : fxDomain aw f1 a = true := by
+  unfold fxDomain
+  rw [Nat.mod_eq_of_lt ha]
+  simp only [Bool.and_eq_true, Bool.or_eq_true, decide_eq_true_eq]
+  refine ⟨⟨⟨h1, h32⟩, ha⟩, ?_⟩
+  by_cases h0 : Bits.toSigned aw a = 0
+  · exact Or.inl h0
+  · right
+    have hn := toSigned_natAbs_le aw a h1 ha
+    have hnaw : (Bits.toSigned aw a).natAbs < 2^aw :=
+      Nat.lt_of_le_of_lt hn (Nat.pow_lt_pow_right (by decide) (by omega))
+    exact fxBiased_format aw f1 _ (log2_lt_of_lt _ aw (by omega) hnaw) hlo hhi
+
+/-- … and the oracle the harness runs on the real block accepts the model's outputs on the whole domain -/
+theorem fixedtofp_oracle (aw : Nat) (f1 : Int) (a : Nat) (hd : fxDomain aw f1 a = true) :
+    fx2fOk aw f1 a (fixedtofp aw f1 a).1 (fixedtofp aw f1 a).2 = true := fixedtofp_oracle' aw f1 a hd
+
+/-- format (32, f1 = 31) IS the integer conversion -/
+theorem fixedtofp_int (a : Nat) (ha : a < 2^32) : fixedtofp 32 31 a = inttofp a := fixedtofp_int' a ha
+
+-- Q8.7 (aw = 16, f1 = 8, value = a·2^-7): 0x0180 = 3.0;  0xFF40 = −1.5;  a 1-bit format; a 32-bit word that loses precision (f1 = 3: value 2^-28·a);
+-- a negative f1 (value = a·2^(−5+1−8)); outside the domain the 8-bit exponent wraps: (8, 130) maps −128·2^123 = −2^130 to −2^-126
+example : fixedtofp 16 8 0x0180 = (0x40400000, 0) ∧ fixedtofp 16 8 0xFF40 = (0xBFC00000, 0) ∧ fixedtofp 1 0 1 = (0xBF800000, 0)
+    ∧ fixedtofp 32 3 0x10000001 = (0x3F800000, 1) ∧ fixedtofp 8 (-5) 1 = (0x39800000, 0)
+    ∧ fxDomain 16 8 0x0180 = true ∧ fxDomain 8 (-5) 1 = true ∧ fx2fOk 8 (-5) 1 0x39800000 0 = true
+    ∧ fxDomain 8 130 0x80 = false ∧ fixedtofp 8 130 0x80 = (0x80800000, 0) := by decide +kernel
+
+/-! ## (6) tightened error bounds (the property's own bounds are `fpmul_ulp` and `fpadd_sign_ulp`) and their tightness -/
+
+/-- FPMult_SP truncates TOWARD ZERO: sign = sa xor sb, |r| ≤ |a·b| and |a·b| − |r| < 1 ulp(r) (one-sided; `mulTight`) -/
+theorem fpmul_tight (a b : Nat) (ha : normal a = true) (hb : normal b = true) (hp : prodNormal a b = true) :
+    mulTight a b (fpmul a b) = true :=
+  (fpmul_strong' a b (normal_exp a ha).2.1 (normal_exp a ha).2.2 (normal_exp b hb).2.1 (normal_exp b hb).2.2 hp).2
+
+/-- the 1-ulp bound of the multiplier cannot be improved: an in-domain pair whose error exceeds 0.999 ulp(r)
+    (so the multiplier is NOT correctly rounded: round-to-nearest would be within 0.5 ulp) -/
+theorem fpmul_bound_tight :
+    normal 0x3FD95C21 = true ∧ normal 0xBFD8DD52 = true ∧ prodNormal 0x3FD95C21 0xBFD8DD52 = true ∧
+    fpmul 0x3FD95C21 0xBFD8DD52 = 0xC03821A5 ∧
+    1000 * (mag 0x3FD95C21 * mag 0xBFD8DD52 - mag 0xC03821A5 * 2^149) > 999 * (ulp 0xC03821A5 * 2^149) := by decide +kernel
+
+/-- **FPAdder_SP, tightened**: effective addition (equal signs): |r| ≤ |a+b| and the error is below ONE ulp of the RESULT;
+    effective subtraction (opposite signs): |r| ≥ |a+b| and the error is below ONE ulp of the operand of larger magnitude
+    (`addTight`).  Same domain as `fpadd_sign_ulp`, every exponent gap. -/
+theorem fpadd_tight (a b : Nat) (ha : normal a = true) (hb : normal b = true) (hs : sumNormal a b = true) :
+    addTight a b (fpadd a b) = true := by
+  obtain ⟨a32, a1, a2⟩ := normal_exp a ha
+  obtain ⟨b32, b1, b2⟩ := normal_exp b hb
+  exact fpadd_tight' a b a32 b32 a1 a2 b1 b2 hs
+
+/-- the property's "two ulps of the larger operand" cannot be improved for equal signs: an in-domain pair (gap 10, carry out,
+    dropped bit and alignment remainder both maximal) with error above 1.99 ulp of the larger operand -/
+theorem fpadd_bound_tight :
+    normal 0x467FFFFF = true ∧ normal 0x417FFBFF = true ∧ sumNormal 0x467FFFFF 0x417FFBFF = true ∧
+    fpadd 0x467FFFFF 0x417FFBFF = 0x46801FFE ∧
+    100 * (sval 0x46801FFE - sum 0x467FFFFF 0x417FFBFF).natAbs > 199 * ulpMax 0x467FFFFF 0x417FFBFF := by decide +kernel
+
+/-- … and for opposite signs the error cannot be bounded in ulps of the RESULT (no guard bits: the aligned operand is
+    truncated before the subtraction): 2.0 − 1.99999988 (exact 2^-23) gives 2^-22, off by 2^22 ulp(r), a factor 2,
+    while within the property's bound and within `addTight` -/
+theorem fpadd_cancellation_witness :
+    normal 0x40000000 = true ∧ normal 0xBFFFFFFF = true ∧ sumNormal 0x40000000 0xBFFFFFFF = true ∧
+    fpadd 0x40000000 0xBFFFFFFF = 0x34800000 ∧ sval 0x34800000 = 2 * sum 0x40000000 0xBFFFFFFF ∧
+    (sval 0x34800000 - sum 0x40000000 0xBFFFFFFF).natAbs = 2^22 * ulp 0x34800000 ∧
+    addOk 0x40000000 0xBFFFFFFF 0x34800000 = true ∧ addTight 0x40000000 0xBFFFFFFF 0x34800000 = true := by decide +kernel
+
+example : mulTight 0x3FC00000 0x40100000 (fpmul 0x3FC00000 0x40100000) = true
+    ∧ addTight 0x3FC00000 0x40100000 (fpadd 0x3FC00000 0x40100000) = true := by decide +kernel
+
+/-! ## (7) operands OUTSIDE the property's domain (zero, subnormal, ∞, NaN, exact result not normal): what the blocks do.
+    Characterisation theorems about the model (tied to the real blocks on exactly these operands by the `blocks` stream and the
+    corpus file corpus/C13/characterisation.json); the property claims nothing here, so none of this is a finding. -/
+
+/-- comparator, absolute mode, ALL pairs of words: the order of the magnitude key `magx` (= |value|·2^149 on every finite
+    encoding, zero and subnormals included; ∞ above every finite number; NaNs above ∞ by payload) -/
+theorem fpcmp_abs_total (a b : Nat) :
+    fpcmp true a b = (b2n (decide (magx b < magx a)), b2n (decide (magx a = magx b)), b2n (decide (magx a < magx b))) :=
+  fpcmp_abs_all a b
+
+/-- comparator, plain mode, ALL pairs of words: the IEEE-754 `totalOrder` predicate (key `tkey`: sign first, −0 below +0) -/
+theorem fpcmp_totalOrder (a b : Nat) :
+    fpcmp false a b = (b2n (decide (tkey b < tkey a)), b2n (decide (tkey a = tkey b)), b2n (decide (tkey a < tkey b))) :=
+  fpcmp_total_order a b
+
+/-- hence the plain comparator orders ALL finite encodings (subnormals and zeros included) and ±∞ exactly as their real
+    values, except a pair of zeros: the property's comparator clause extends from "finite normal" to every non-NaN pair
+    other than {+0, −0} -/
+theorem fpcmp_nonzero_spec (a b : Nat) (hz : ¬ (magx a = 0 ∧ magx b = 0)) :
+    fpcmp false a b = (b2n (decide (svalx b < svalx a)), b2n (decide (svalx a = svalx b)), b2n (decide (svalx a < svalx b))) :=
+  fpcmp_finite a b hz
+
+-- +0 vs −0: reported as +0 > −0 (IEEE: equal);  NaN vs ∞: ordered (IEEE: unordered);  subnormals 1·2^-149 < 2·2^-149;  −2^-149 > −2^-148
+example : fpcmp false 0 0x80000000 = (1, 0, 0) ∧ fpcmp true 0 0x80000000 = (0, 1, 0) ∧ fpcmp false 0x7FC00000 0x7F800000 = (1, 0, 0)
+    ∧ fpcmp false 0x7FC00000 0x7FC00000 = (0, 1, 0) ∧ fpcmp false 1 2 = (0, 0, 1) ∧ fpcmp false 0x80000001 0x80000002 = (1, 0, 0)
+    ∧ svalx 1 = 1 ∧ svalx 0x80000002 = -2 ∧ tkey 0x80000000 = -1 ∧ tkey 0 = 0 := by decide +kernel
+
+/-- multiplier, ALL pairs of words: no special-case logic — significands with hidden bit [exp ≠ 0] (`sig`), exponent fields
+    added and re-biased modulo 256, one normalisation bit -/
+theorem fpmul_all (a b : Nat) :
+    let P := sig a * sig b
+    let E := expOf a + expOf b
+    fpmul a b = b2n (decide (signOf a = 1) ^^ decide (signOf b = 1)) * 2^31 +
+      ((if P / 2^47 % 2 = 1 then (E + 130) % 256 else ((E + 130) % 256 + 255) % 256) * 2^23 +
+       (if P / 2^47 % 2 = 1 then P / 2^24 % 2^23 else P / 2^23 % 2^23)) := fpmul_fields a b
+
+/-- ±0 · b is NOT zero in general (`isZeror` drives nothing): fraction 0, exponent field (expOf b − 127) mod 256 -/
+theorem fpmul_zero_operand (a b : Nat) (he : expOf a = 0) (hf : fracOf a = 0) :
+    fpmul a b = b2n (decide (signOf a = 1) ^^ decide (signOf b = 1)) * 2^31 + ((expOf b + 129) % 256) * 2^23 :=
+  fpmul_zero a b he hf
+
+-- 0·2.0 = 2^-126;  0·1.0 = 0;  ∞·2.0 = +0;  ∞·1.0 = ∞;  subnormal·1.0 = the same subnormal;  2^127·2^127 wraps to 2^-2
+example : fpmul 0 0x40000000 = 0x00800000 ∧ fpmul 0 0x3F800000 = 0 ∧ fpmul 0x7F800000 0x40000000 = 0
+    ∧ fpmul 0x7F800000 0x3F800000 = 0x7F800000 ∧ fpmul 1 0x3F800000 = 1 ∧ fpmul 0x7F000000 0x7F000000 = 0x3E800000 := by
+  decide +kernel
+
+/-- adder datapath after the swap, ALL words with expOf B ≤ expOf A (what the swap guarantees): `fpadd_datapath` without the
+    "exponent field ≠ 0" hypotheses; significands `sig`, exponent FIELDS subtracted -/
+theorem fpadd_datapath_all (A B : Nat) (hle : expOf B ≤ expOf A) :
+    let mA := sig A
+    let mB := sig B
+    let mb3 := mB / 2^(expOf A - expOf B)
+    let mr : Nat := if signOf A = signOf B then (mA + mb3) % 2^25 else Leaf.sub 25 mA mb3
+    let c : Nat := if mr = 0 then 25 else 24 - mr.log2
+    fpaddCore A B = signOf A * 2^31 + ((((expOf A + 256 - c) % 256 + 1) % 256) * 2^23 + (mr * 2^c % 2^25) / 2 % 2^23) :=
+  fpaddCore_fields A B hle
+
+/-- **x + (±0) = x exactly**, both operand orders, every word x with a non-zero exponent field (all normal numbers) -/
+theorem fpadd_zero_operand (a z : Nat) (ha : a < 2^32) (hz : z < 2^32) (ha1 : 1 ≤ expOf a) (hze : expOf z = 0)
+    (hzf : fracOf z = 0) : fpadd a z = a ∧ fpadd z a = a := fpadd_zero a z ha hz ha1 hze hzf
+
+/-- **x + (−x) ≠ 0**: (sign of the FIRST operand, exponent field (expOf x − 24) mod 256, fraction 0), i.e. ±2^(e−24) for
+    expOf x ≥ 25 — within two ulps of x of the exact sum 0, but not zero and not commutative (the only non-commutative pairs:
+    `fpadd_comm_fields`) -/
+theorem fpadd_exact_cancellation (a b : Nat) (ha : a < 2^32) (hb : b < 2^32) (ha1 : 1 ≤ expOf a)
+    (he : expOf b = expOf a) (hf : fracOf b = fracOf a) (hs : signOf b ≠ signOf a) :
+    fpadd a b = signOf a * 2^31 + ((expOf a + 232) % 256) * 2^23 ∧
+    fpadd b a = signOf b * 2^31 + ((expOf a + 232) % 256) * 2^23 := fpadd_cancel a b ha hb ha1 he hf hs
+
+-- 1.0 − 1.0 = +2^-24, (−1.0) + 1.0 = −2^-24;  0 + 0 = 2^105;  ∞ + ∞ = +0;  two subnormals 2^-149 + 2^-149 = 2^107;  1.0 + 0 = 1.0
+example : fpadd 0x3F800000 0xBF800000 = 0x33800000 ∧ fpadd 0xBF800000 0x3F800000 = 0xB3800000 ∧ fpadd 0 0 = 0x74000000
+    ∧ fpadd 0x7F800000 0x7F800000 = 0 ∧ fpadd 1 1 = 0x75000000 ∧ fpadd 0x3F800000 0x80000000 = 0x3F800000 := by decide +kernel
+
+/-- the characterisation checks the harness evaluates on the REAL blocks' outputs outside the domain (`FpSpec.charCheck`,
+    verdicts `out:char-ok` / `out:char-FAIL`) are theorems of the model: they never fail on the model's outputs -/
+theorem charCheck_cmp (a b : Nat) :
+    charCheck "cmp" a b [(fpcmp false a b).1, (fpcmp false a b).2.1, (fpcmp false a b).2.2] = some true := by
+  rw [fpcmp_totalOrder]; simp [charCheck]
+
+theorem charCheck_cmpabs (a b : Nat) :
+    charCheck "cmpabs" a b [(fpcmp true a b).1, (fpcmp true a b).2.1, (fpcmp true a b).2.2] = some true := by
+  rw [fpcmp_abs_total]; simp [charCheck]
+
+theorem charCheck_mul (a b : Nat) : charCheck "mul" a b [fpmul a b] ≠ some false := by
+  have hx := xor_sign (signOf a) (signOf b) (signOf_lt a) (signOf_lt b)
+  have hx' := xor_sign (signOf b) (signOf a) (signOf_lt b) (signOf_lt a)
+  simp only [charCheck]
+  by_cases hza : isZeroEnc a = true
+  · rw [if_pos hza]
+    unfold isZeroEnc at hza
+    simp only [Bool.and_eq_true, decide_eq_true_eq] at hza
+    rw [fpmul_zero a b hza.1 hza.2, hx]
+    simp
+  · rw [if_neg hza]
+    by_cases hzb : isZeroEnc b = true
+    · rw [if_pos hzb]
+      unfold isZeroEnc at hzb
+      simp only [Bool.and_eq_true, decide_eq_true_eq] at hzb
+      rw [fpmul_comm a b, fpmul_zero b a hzb.1 hzb.2, hx', Nat.add_comm (signOf b)]
+      simp
+    · rw [if_neg hzb]; simp
+
+theorem charCheck_add (a b : Nat) (ha : a < 2^32) (hb : b < 2^32) : charCheck "add" a b [fpadd a b] ≠ some false := by
+  simp only [charCheck]
+  by_cases h1 : (isZeroEnc b && decide (1 ≤ expOf a)) = true
+  · rw [if_pos h1]
+    unfold isZeroEnc at h1
+    simp only [Bool.and_eq_true, decide_eq_true_eq] at h1
+    rw [(fpadd_zero a b ha hb h1.2 h1.1.1 h1.1.2).1]
+    simp
+  · rw [if_neg h1]
+    by_cases h2 : (isZeroEnc a && decide (1 ≤ expOf b)) = true
+    · rw [if_pos h2]
+      unfold isZeroEnc at h2
+      simp only [Bool.and_eq_true, decide_eq_true_eq] at h2
+      rw [(fpadd_zero b a hb ha h2.2 h2.1.1 h2.1.2).2]
+      simp
+    · rw [if_neg h2]
+      by_cases h3 : (decide (1 ≤ expOf a) && decide (expOf a = expOf b) && decide (fracOf a = fracOf b) &&
+          decide (signOf a ≠ signOf b)) = true
+      · rw [if_pos h3]
+        simp only [Bool.and_eq_true, decide_eq_true_eq] at h3
+        rw [(fpadd_cancel a b ha hb h3.1.1.1 h3.1.1.2.symm h3.1.2.symm (fun h => h3.2 h.symm)).1]
+        simp
+      · rw [if_neg h3]; simp
 
 end C13
